@@ -107,32 +107,32 @@ func matchKnown(kn []KnownFinding, v Violation) *KnownFinding {
 
 // WorkerOut is what one worker process reports.
 type WorkerOut struct {
-	Property   string            `json:"property"`
-	Worker     int               `json:"worker"`
-	Seed       uint64            `json:"seed"`
-	Runs       int               `json:"runs"`
-	Capped     int               `json:"capped"`
-	Deadlocks  int               `json:"deadlocks"`
-	SimSeconds float64           `json:"sim_seconds"`
-	Steps      int64             `json:"steps"`
-	Decisions  int64             `json:"decisions"`
-	Switches   int64             `json:"switches"`
-	WallS      float64           `json:"wall_s"`
-	Distinct   map[string]int    `json:"-"`
-	DistinctN  int               `json:"distinct"`
-	DistinctKeys []string        `json:"distinct_keys,omitempty"`
-	Extra      map[string]int64  `json:"extra"`
-	Probes     map[string]int    `json:"probes"`
-	Faults     map[string]int    `json:"faults_fired"`
-	PerFamily  map[string]int    `json:"per_family"`
-	PerClass   map[string]int    `json:"per_class"`
-	Known      map[string]int    `json:"known"`
-	KnownWhat  map[string]string `json:"known_what"`
-	Violations []ReplayFile      `json:"violations"`
-	Samples    []json.RawMessage `json:"samples"`
-	HarnessErr string            `json:"harness_err,omitempty"`
-	BubbleDeadlocks int          `json:"bubble_deadlocks"`
-	KindCount  map[string]int64  `json:"kind_count"`
+	Property        string            `json:"property"`
+	Worker          int               `json:"worker"`
+	Seed            uint64            `json:"seed"`
+	Runs            int               `json:"runs"`
+	Capped          int               `json:"capped"`
+	Deadlocks       int               `json:"deadlocks"`
+	SimSeconds      float64           `json:"sim_seconds"`
+	Steps           int64             `json:"steps"`
+	Decisions       int64             `json:"decisions"`
+	Switches        int64             `json:"switches"`
+	WallS           float64           `json:"wall_s"`
+	Distinct        map[string]int    `json:"-"`
+	DistinctN       int               `json:"distinct"`
+	DistinctKeys    []string          `json:"distinct_keys,omitempty"`
+	Extra           map[string]int64  `json:"extra"`
+	Probes          map[string]int    `json:"probes"`
+	Faults          map[string]int    `json:"faults_fired"`
+	PerFamily       map[string]int    `json:"per_family"`
+	PerClass        map[string]int    `json:"per_class"`
+	Known           map[string]int    `json:"known"`
+	KnownWhat       map[string]string `json:"known_what"`
+	Violations      []ReplayFile      `json:"violations"`
+	Samples         []json.RawMessage `json:"samples"`
+	HarnessErr      string            `json:"harness_err,omitempty"`
+	BubbleDeadlocks int               `json:"bubble_deadlocks"`
+	KindCount       map[string]int64  `json:"kind_count"`
 }
 
 func splitmix(a, b, c uint64) uint64 {
@@ -207,7 +207,7 @@ func TestWorker(t *testing.T) {
 		fmt.Fprintln(os.Stderr, "no families for", prop)
 		os.Exit(2)
 	}
-	out := &WorkerOut{Property: prop, Worker: worker, Seed: seed, Distinct: map[string]int{}, Probes: map[string]int{}, Faults: map[string]int{}, PerFamily: map[string]int{}, PerClass: map[string]int{}, Known: map[string]int{}, KnownWhat: map[string]string{}, KindCount: map[string]int64{}}
+	out := &WorkerOut{Property: prop, Worker: worker, Seed: seed, Distinct: map[string]int{}, Probes: map[string]int{}, Faults: map[string]int{}, PerFamily: map[string]int{}, PerClass: map[string]int{}, Known: map[string]int{}, KnownWhat: map[string]string{}, KindCount: map[string]int64{}, Extra: map[string]int64{}}
 	start := time.Now()
 	seenFP := map[string]bool{}
 	minimiseBudget := time.Duration(envInt("VERIF_MINIMISE_S", 15)) * time.Second
@@ -216,81 +216,93 @@ func TestWorker(t *testing.T) {
 		r := simrt.NewRng(rs)
 		fam := pickFamily(fams, r)
 		g := &Gen{R: r.Fork(), Tier: tier, Prop: prop}
-		sc := fam.Gen(g)
-		sched := DrawSched(r.Fork())
-		if sc.Int("stall", 0) == 1 {
-			sched.Stall = true
+		base := fam.Gen(g)
+		scs := []*Scn{base}
+		if fam.Expand != nil {
+			scs = fam.Expand(base)
+			out.Extra["enumerated_scenarios"]++
+			out.Extra["enumerated_fault_positions"] += int64(len(scs))
 		}
-		wdInfo = fmt.Sprintf("prop=%s family=%s seed=%d worker=%d run=%d", prop, fam.Name, seed, worker, run)
-		wdRunStart = time.Now().UnixNano()
-		res := RunOnce(t, fam, sc, &sched, false)
-		wdRunStart = 0
-		if res.HarnessErr != "" {
-			out.HarnessErr = fmt.Sprintf("%s: %s", wdInfo, res.HarnessErr)
-			b, _ := json.Marshal(sc)
-			out.HarnessErr += "\nscenario: " + string(b)
-			break
-		}
-		out.Runs++
-		out.PerFamily[fam.Name]++
-		cls := sc.Class()
-		out.PerClass[cls]++
-		if res.Capped {
-			out.Capped++
-		}
-		if res.Deadlock {
-			out.Deadlocks++
-		}
-		out.SimSeconds += res.SimTime.Seconds()
-		out.Steps += int64(res.Stats.Steps)
-		out.Decisions += int64(res.Stats.Decisions)
-		out.Switches += int64(res.Stats.Switches)
-		for i, c := range res.Stats.KindCount {
-			if c > 0 {
-				out.KindCount[simrt.Kind(i).String()] += int64(c)
+		sr := r.Fork()
+		for _, sc := range scs {
+			sched := DrawSched(sr.Fork())
+			if sc.Int("stall", 0) == 1 {
+				sched.Stall = true
 			}
-		}
-		statsFaults(out.Faults, &res.Stats, &sched, res)
-		for k, v := range res.Probes {
-			out.Probes[k] += v
-		}
-		if res.Stats.MultiPoints > 0 || sc.Int("seqmode", 0) == 1 {
-			key := fmt.Sprintf("%s#%x", cls, res.ILHash)
-			if sc.Int("seqmode", 0) == 1 {
+			wdInfo = fmt.Sprintf("prop=%s family=%s seed=%d worker=%d run=%d", prop, fam.Name, seed, worker, run)
+			wdRunStart = time.Now().UnixNano()
+			res := RunOnce(t, fam, sc, &sched, false)
+			wdRunStart = 0
+			if res.HarnessErr != "" {
+				out.HarnessErr = fmt.Sprintf("%s: %s", wdInfo, res.HarnessErr)
 				b, _ := json.Marshal(sc)
-				key = fmt.Sprintf("%s#%x", cls, simrt.NewRng(hashBytes(b)).Uint64())
+				out.HarnessErr += "\nscenario: " + string(b)
+				break
 			}
-			if len(out.Distinct) < 400000 {
-				out.Distinct[fmt.Sprintf("%x", hashBytes([]byte(key)))]++
+			if len(out.Violations) >= 3 {
+				break
+			}
+			out.Runs++
+			out.PerFamily[fam.Name]++
+			cls := sc.Class()
+			out.PerClass[cls]++
+			if res.Capped {
+				out.Capped++
+			}
+			if res.Deadlock {
+				out.Deadlocks++
+			}
+			out.SimSeconds += res.SimTime.Seconds()
+			out.Steps += int64(res.Stats.Steps)
+			out.Decisions += int64(res.Stats.Decisions)
+			out.Switches += int64(res.Stats.Switches)
+			for i, c := range res.Stats.KindCount {
+				if c > 0 {
+					out.KindCount[simrt.Kind(i).String()] += int64(c)
+				}
+			}
+			statsFaults(out.Faults, &res.Stats, &sched, res)
+			for k, v := range res.Probes {
+				out.Probes[k] += v
+			}
+			if res.Stats.MultiPoints > 0 || sc.Int("seqmode", 0) == 1 {
+				key := fmt.Sprintf("%s#%x", cls, res.ILHash)
+				if sc.Int("seqmode", 0) == 1 {
+					b, _ := json.Marshal(sc)
+					key = fmt.Sprintf("%s#%x", cls, simrt.NewRng(hashBytes(b)).Uint64())
+				}
+				if len(out.Distinct) < 400000 {
+					out.Distinct[fmt.Sprintf("%x", hashBytes([]byte(key)))]++
+				}
+			}
+			if len(out.Samples) < 3 && (run%7 == 0) {
+				sm := map[string]interface{}{"scenario": sc, "sched": map[string]interface{}{"strategy": sched.Strategy, "p": sched.P, "d": sched.D, "yield_atomics": sched.YieldAtomics, "map_permute": sched.MapPermute, "decisions": truncInts(res.Decisions, 60)}, "steps": res.Stats.Steps, "sim_time": res.SimTime.String(), "violations": len(res.Viols)}
+				b, _ := json.Marshal(sm)
+				out.Samples = append(out.Samples, b)
+			}
+			for _, v := range res.Viols {
+				if v.Prop != prop && !(prop == "C13") {
+					// a family shared between properties reports only the property being checked
+					continue
+				}
+				if kf := matchKnown(known, v); kf != nil {
+					out.Known[kf.ID]++
+					out.KnownWhat[kf.ID] = kf.What
+					continue
+				}
+				if seenFP[v.FP] {
+					continue
+				}
+				seenFP[v.FP] = true
+				rf := ReplayFile{Property: v.Prop, Scenario: sc, Sched: sched, Viol: v, Seed: seed}
+				rf.Sched.Strategy = "replay"
+				rf.Sched.Decisions = res.Decisions
+				rf.LogHash = fmt.Sprintf("%x", res.LogHash)
+				min := minimise(t, fam, &rf, known, minimiseBudget)
+				out.Violations = append(out.Violations, *min)
 			}
 		}
-		if len(out.Samples) < 3 && (run%7 == 0) {
-			sm := map[string]interface{}{"scenario": sc, "sched": map[string]interface{}{"strategy": sched.Strategy, "p": sched.P, "d": sched.D, "yield_atomics": sched.YieldAtomics, "map_permute": sched.MapPermute, "decisions": truncInts(res.Decisions, 60)}, "steps": res.Stats.Steps, "sim_time": res.SimTime.String(), "violations": len(res.Viols)}
-			b, _ := json.Marshal(sm)
-			out.Samples = append(out.Samples, b)
-		}
-		for _, v := range res.Viols {
-			if v.Prop != prop && !(prop == "C13") {
-				// a family shared between properties reports only the property being checked
-				continue
-			}
-			if kf := matchKnown(known, v); kf != nil {
-				out.Known[kf.ID]++
-				out.KnownWhat[kf.ID] = kf.What
-				continue
-			}
-			if seenFP[v.FP] {
-				continue
-			}
-			seenFP[v.FP] = true
-			rf := ReplayFile{Property: v.Prop, Scenario: sc, Sched: sched, Viol: v, Seed: seed}
-			rf.Sched.Strategy = "replay"
-			rf.Sched.Decisions = res.Decisions
-			rf.LogHash = fmt.Sprintf("%x", res.LogHash)
-			min := minimise(t, fam, &rf, known, minimiseBudget)
-			out.Violations = append(out.Violations, *min)
-		}
-		if len(out.Violations) >= 3 {
+		if len(out.Violations) >= 3 || out.HarnessErr != "" {
 			break
 		}
 	}
